@@ -58,12 +58,19 @@ inductive Err where
   | missingHandler  -- zenodb.ErrMissingQueryHandler
   | handler         -- error returned by a partition's query handler
   | incomplete      -- planner: a subquery's statistics report missing partitions (after the fix)
+  /-- not an error VALUE: a panic raised inside per-row processing (goexpr SUBSTR/SPLIT/LEN on a
+      value of an unexpected type in WHERE / GROUP BY, a consumer callback, …).  A panic unwinds
+      through the callers of the callback without running their code; every operator of this
+      model hands a failing reply up unchanged (`StepOK.post_ok`), so the unwinding IS the reply
+      `fail .panic` travelling up to the next recover boundary (`recoverStep`), which decides
+      what the code above the boundary sees. -/
+  | panic
 deriving DecidableEq, Repr, Inhabited
 
 def Err.str : Err → String
   | .deadline => "deadline" | .oom => "oom" | .consumer => "consumer" | .source => "source"
   | .filter => "filter" | .size => "size" | .missingHandler => "missing_handler" | .handler => "handler"
-  | .incomplete => "incomplete"
+  | .incomplete => "incomplete" | .panic => "panic"
 
 /-! Times and durations are `Nat`s. -/
 
@@ -204,6 +211,18 @@ def guardStep (g : Guard) : Step Unit where
 def oomHit (oomAt : Option Nat) (i : Nat) : Bool :=
   i % 1000 == 0 && (match oomAt with | some c => decide (c ≤ i / 1000) | none => false)
 
+/-- table.go `iteration.safeOnValue`: the recover boundary between the shared scan goroutine and
+    one query's per-row processing.
+    `func (it *iteration) safeOnValue(..) (more bool, err error) { defer func() { if p := recover(); p != nil
+       { more = false; err = fmt.Errorf("Panic while iterating: %v", p) } }(); return it.onValue(..) }`
+    `reports = true` is that code: the deferred closure assigns the NAMED results, the scan sees
+    `(false, err)`.  `reports = false` is the boundary whose closure assigns local variables
+    only: after the unwinding the function returns the zero values `(false, nil)`, which
+    doProcessIterations reads as "this query wants no more rows". -/
+def recoverStep (reports : Bool) : Step Unit where
+  pre := fun _ _ r => ((), 0, .forward [r])
+  post := fun _ _ rep => ((), if rep.err == some .panic && !reports then .stop else rep)
+
 def oomStep (oomAt : Option Nat) : Step Nat where
   pre := fun i _ r =>
     if oomHit oomAt i then
@@ -224,6 +243,8 @@ inductive UFault where
   | sleepAt (k d : Nat)
   /-- web.doQuery's callback: `estimatedResultBytes += size(row)`; over `max` ⇒ `false, err` -/
   | sizeCap (max : Nat)
+  /-- the call with index k panics (nothing recorded) -/
+  | panicAt (k : Nat)
 deriving Repr, DecidableEq
 
 structure UState where
@@ -240,6 +261,7 @@ def userSink (f : UFault) (size : Row → Nat) : Sink UState where
     | .failAt k => if st.n == k then ({ st with n := st.n + 1 }, 0, .fail .consumer) else (rec_, 0, .proceed)
     | .stopAt k => if st.n == k then ({ st with n := st.n + 1 }, 0, .stop) else (rec_, 0, .proceed)
     | .sleepAt k d => if st.n == k then (rec_, d, .proceed) else (rec_, 0, .proceed)
+    | .panicAt k => if st.n == k then ({ st with n := st.n + 1 }, 0, .fail .panic) else (rec_, 0, .proceed)
     | .sizeCap max =>
       let est := st.est + size r
       if max < est then ({ st with n := st.n + 1, est := est }, 0, .fail .size)
@@ -289,6 +311,8 @@ structure Cfg where
   d4 : Bool
   subq : Bool
   subqStats : Bool
+  /-- table.go safeOnValue hands the recovered panic to the scan as an error (see `recoverStep`) -/
+  recover : Bool := true
   coalesce : Coalesce
 deriving Repr
 
@@ -483,8 +507,8 @@ def coalescedScan {σ : Type} (env : Env) (t : Table) (s : Sink σ) (st : σ) (n
 
 /-- query.go queryable.Iterate (onFields of the caller does not fail; the table has fields) -/
 def tableIterate {σ : Type} (env : Env) (t : Table) (s : Sink σ) (st : σ) (now : Nat) : Res σ :=
-  let (x, d, e) := coalescedScan env t (wrap (oomStep t.oomAt) s) (1, st) now
-  { st := x.2, took := d, err := e,
+  let (x, d, e) := coalescedScan env t (wrap (recoverStep env.cfg.recover) (wrap (oomStep t.oomAt) s)) ((), 1, st) now
+  { st := x.2.2, took := d, err := e,
     stats := some { total := 1, successful := if e.isNone then 1 else 0, missing := [] } }
 
 /-! ## Cluster: cluster_query.go queryCluster -/
@@ -860,11 +884,13 @@ structure Outcome where
   stats : Option Stats
   now : Nat
   stopped : Bool     -- the caller's own callback asked to stop
+  calls : Nat := 0   -- how often the caller's callback was called
 deriving Repr
 
 def embedded (env : Env) (p : Plan) (f : UFault) (size : Row → Nat) (now : Nat) : Outcome :=
   let r := iterate env p (userSink f size) {} now
-  { rows := r.st.rows, err := r.err, stats := r.stats, now := now + r.took, stopped := f.stopped r.st }
+  { rows := r.st.rows, err := r.err, stats := r.stats, now := now + r.took, stopped := f.stopped r.st,
+    calls := r.st.n }
 
 /-- the caller has been told (error, or partial statistics) -/
 def Outcome.told (o : Outcome) : Bool :=
